@@ -354,6 +354,10 @@ def run(ctx):
         ("random", [rand_ident(rng) for _ in range(600 if not ctx.thorough else 6000)]),
         ("keyword-variant", [f(k) for k in keyword.kwlist for f in (str.upper, str.capitalize, lambda k: k + "_", lambda k: "_" + k,
                                                                      lambda k: k + "1", lambda k: k[:1] + "_" + k[1:])]),
+        # names of the public Message API, in the three spellings a .proto author may use (a field with such a name is K9 on
+        # this tree - unusable, skipped below; a plugin that renames them must keep the runtime's key lookup in step: C19-5)
+        ("message-api", [f(n) for n in sorted(I.reserved) if not n.startswith("_")
+                         for f in (lambda n: n, lambda n: C.camel_case(n), lambda n: n.upper())]),
         ("non-ascii", ["é", "aéb", "Éa", "a中b", "ßA", "naïve_name", "Ωmega_1", "a\nb", "tab\tsep", "emoji😀Name", ""]),
     ]
     names, seen = [], set()
@@ -471,10 +475,10 @@ def run(ctx):
     e2e_names = {}                                    # python field name -> (proto names of the groups, of the sweep)
     for _, s in names:
         if s.isascii() and s.isidentifier():
-            e2e_names.setdefault(C.safe_snake_case(s), ([], []))[0].append(s)
+            e2e_names.setdefault(I.N.pythonize_field_name(s), ([], []))[0].append(s)     # the name the PLUGIN gives the field
     for s in sweep_strings(A8[:-1], n5, ""):
         if s.isidentifier() and s not in seen:
-            e2e_names.setdefault(C.safe_snake_case(s), ([], []))[1].append(s)
+            e2e_names.setdefault(I.N.pythonize_field_name(s), ([], []))[1].append(s)
     ne2e = 0
     for F, (gsrcs, ssrcs) in e2e_names.items():
         # oracle: every proto name of the case-by-case groups; for the sweep, two proto names per field
